@@ -13,7 +13,7 @@ A9 telescope_use changes only by +/- demand in begin/finish_observation
 import ast
 
 from ..index import AnalysisError, is_spawn, walk_no_nested
-from ..norm import Affine, Canon, Lit, Logic, ProvCanon, affine, effects_of_event, lit_le
+from ..norm import Affine, Canon, Lit, Logic, ProvCanon, affine, effects_of_event, path_effects, lit_le, effects_along
 from ..paths import Frame, cached_paths
 from ..skel import outcomes
 from .common import (bound_args, call_name, enclosing_loops, path_must, short, stmt_contains)
@@ -173,7 +173,7 @@ def predicates(repo, res, canon, pc, logic, plogic):
         if o.result != 'T':
             continue
         n_t += 1
-        effs = [ef for e in o.path.events for ef in effects_of_event(canon, e)
+        effs = [ef for ef in path_effects(canon, o.path.events)
                 if ef.loc == 'Scheduler.provision_ingest' and ef.kind == 'aug+']
         if len(effs) == 1 and pc.p(effs[0].value, Frame(f)) == dem:
             n_res += 1
@@ -367,8 +367,8 @@ def a9(repo, res, canon):
             continue
         seen = set()
         for p in cached_paths(f):
-            for e in p.events:
-                for ef in effects_of_event(canon, e):
+            for e, _efs in effects_along(canon, p.events):
+                for ef in _efs:
                     if ef.loc == USE and id(ef.node) not in seen:
                         seen.add(id(ef.node))
                         ws.append((f, ef))
